@@ -288,6 +288,16 @@ def _retarget(term, m):
         term["t"] = m.get(term["t"], term["t"])
 
 
+_PLUMBING = ("core::ops::try_trait::", "core::result::Result::", "core::option::Option::", "core::convert::", "core::ops::control_flow::",
+             "core::task::poll::Poll", "core::ops::deref::", "core::borrow::", "core::clone::Clone::clone")
+
+
+def _plumbing_call(t):
+    """std calls that only re-wrap or test a Result/Option (`Try::branch`, `map_err`, `ok`, `as_ref`, `From::from` …)"""
+    c = (t.get("callee") or "")
+    return any(c.startswith(p_) for p_ in _PLUMBING)
+
+
 def _thread_returns(program, j, crate, max_chain=60, rounds=8):
     """An inlined callee's return block is a join: every `return Err(..)` / `return Ok(..)` of the callee meets there (often
     through several nested joins and a straight-line epilogue of drops), and the caller then tests the result (`?`,
@@ -336,6 +346,8 @@ def _thread_returns(program, j, crate, max_chain=60, rounds=8):
                 if t["k"] == "switch":
                     ok = True
                     break
+                if t["k"] == "call" and not _plumbing_call(t):
+                    break  # never duplicate a call that does something: only the test of the returned value is threaded
                 if t["k"] in ("goto", "call", "drop", "assert", "falseedge", "falseunwind") and t.get("t") is not None:
                     nxt = t["t"]
                     if len(set(preds.get(nxt, []))) != 1 or j["blocks"][nxt]["cleanup"] or nxt in chain:
